@@ -117,6 +117,14 @@ def gen_cases(rng, tier):
             t = op.split()[0]
             opk[t] = opk.get(t, 0) + 1
     dist["random_op_kinds"] = opk
+    # the same histories on handles that carry FOREIGN clone/drop functions ('10 1 | ...': built through the published three-field layout)
+    r3 = rng.fork("foreign")
+    nfor = {"quick": 600, "search": 1000}.get(tier, 6000)
+    for c in exhaustive(2)[:400]:
+        cases.append(c.replace("10 |", "10 1 |", 1))
+    for _ in range(nfor):
+        cases.append(random_script(r3, maxlen).replace("10 |", "10 1 |", 1))
+    dist["foreign_function_histories"] = nfor + min(400, len(exhaustive(2)))
     # the same operations issued concurrently: one history on several threads over shared allocations ('110 <threads> <rounds> | history')
     nthr = {"quick": 250, "search": 400}.get(tier, 3000)
     r2 = rng.fork("threads")
